@@ -136,7 +136,10 @@ class LetFiller(Visitor):
         """Return the value for the given constant defined either in the
         override_dict or in the circuit itself."""
         if const.name in self.override_dict:
-            return self.override_dict[const.name]
+            value = self.override_dict[const.name]
+            if isinstance(value, float) and (value != value or value in (float("inf"), float("-inf"))):
+                raise JaqalError(f"Override of {const.name} is not a finite number")
+            return value
         if isinstance(const.value, (int, float)):
             return const.value
         else:
